@@ -221,6 +221,10 @@ def _aux_pool(S, cfg, pool, W, main_spec):
         comp.append(['S', 0])
     if S.coin(0.25):
         comp[1][1] = comp[1][1] + 0.5
+    if S.coin(0.3):
+        # a composition that already holds an element both plain and labelled (what comp() of a labelled peptide with
+        # an unlabelled modification looks like)
+        comp.append([S.pick(['13C', '15N', 'D']), S.randint(1, 6)])
     add('comp', 'C0', {'kind': 'nf', 'val': ['dict', S.shuffled(comp)]})
     add('gcomp', 'G0', {'kind': 'nf', 'val': ['dict', [['Hex', S.randint(1, 3)], ['HexNAc', S.randint(0, 2)]]]})
     # the same two objects in their documented string form (what a str argument is parsed into, and where, is the
